@@ -31,8 +31,14 @@ RULE = ("one run per case: optional pre-existing current file (append), builder,
 VIA_LOGGER = 0.25   # share of the file-writer histories that is run once more through Logger / LoggerHandle
 
 
+def compare(body, model, impl):
+    return True if body.startswith("mt ") else model == impl      # (real interleavings: the oracle decides)
+
+
 def corpus():
-    out = []
+    # the size rule under concurrency (kind mt, the C03 machinery): bursts of records from several threads, also into the
+    # asynchronous channel - every closed file may exceed the limit only by its last line
+    out = ["mt file a2.16 s64 num 6 200 12", "mt file a3.64 s64 numd 8 200 12", "mt file d s64 num 6 100 12", "mt file b64 s300 numd 6 100 12"]
     cfg = g.Cfg(crit="s10", naming="num")
     # boundary: exactly N bytes do not rotate, N+1 do
     out.append("flw %d 0 ; B:%s W:%s W:%s W:%s S SN" % (g.T0, cfg.token(), g.hx(b"a" * 9 + b"\n"), g.hx(b"b\n"), g.hx(b"c\n")))
@@ -66,10 +72,12 @@ def search(rng, tier, disagreeing):
 
 
 def nontrivial(body, obs, ghost):
-    return "+" in ghost
+    return body.startswith("mt ") or "+" in ghost
 
 
 def features(body, obs, ghost):
+    if body.startswith("mt "):
+        return ["concurrent-burst", "mode=" + body.split(" ")[2][0]]
     f = []
     toks = body.split(" ; ", 1)[1].split(" ")
     b = next(t for t in toks if t.startswith("B:"))
